@@ -83,6 +83,8 @@ FAULT_PASS = (
 FAULT_F1 = [fsc(1, 'gb', 6, 1, 1)] + [fsc(1, 'gb', 10, 1, k) for k in (1, 2, 3)] + [fsc(1, 'gtal', 6, 1, 1), fsc(3, 'gb', 6, 1, 1, op2='gb', a2=2)]
 FAULT_F2 = [fsc(1, 'gb', 4, 0, 1), fsc(1, 'gb', 4, 0, 1, op2='gtal', a2=3), fsc(1, 'gb', 4, 0, 1, op2='gb', a2=2), fsc(1, 'gtal', 5, 0, 1)]
 FAULT_F3 = [fsc(1, 'gb', 4, 0, 2)] + [fsc(1, 'gb', 10, 0, k) for k in (1, 2, 3, 4)] + [fsc(1, 'gtal', 5, 0, 2), fsc(3, 'gb', 2, 0, 1, op2='gb', a2=6)]
+# at() / size() / operator[] after the allocation of the LONG segment table failed, with a first block of >= 2 segments (pre-growth by one grow_by)
+FAULT_AT = [fsc(4, 'gb', 8, 0, 1, PMODE=1), fsc(8, 'pb', 0, 0, 1, PMODE=1), fsc(4, 'gtal', 12, 0, 1, PMODE=1), fsc(8, 'gb', 4, 0, 1, PMODE=1)]
 def fharness(name, scen, what):
     return dict(name=name, unit='fault', harness='h_fault.c', defines={'memset': 'vp_memset'}, scenarios=scen, timeout=300, native_cflags=['-fno-sanitize=null'],
                 cbmc=['--unwind', '66', '--object-bits', '10', '--max-field-sensitivity-array-size', '256'],
@@ -90,6 +92,7 @@ def fharness(name, scen, what):
                 bounds={'operations': 'push_back / grow_by(2..10) / grow_to_at_least(4..6) after 0..8 elements', 'fault': 'every listed (kind, k) pair, one per query', 'indices': '< 26 (segments 0..4, long table included)'})
 HARNESSES += [
   fharness('fault_seq', FAULT_PASS, 'Oracle: the injected exception reaches exactly the failing caller; every access stays inside storage handed out by the allocator stub; at(i) works or throws; follow-up calls work or throw and never wait; constructed elements keep value and address; each constructed element destroyed exactly once, every block freed exactly once.'),
+  fharness('fault_at_table', FAULT_AT, 'Checked and unchecked element access after the allocation of the long segment table failed (table stays embedded, size claimed beyond it).'),
   fharness('fault_ctor_cleanup', FAULT_F1, 'KNOWN DEFECT scenarios: the clean-up guard of internal_loop_construct zero-fills slots of segments that were never allocated.'),
   fharness('fault_hang', FAULT_F2, 'KNOWN DEFECT scenarios: after a failed eager allocation of the last segment the skipped segments stay nullptr; later calls wait for them forever.'),
   fharness('fault_dtor', FAULT_F3, 'KNOWN DEFECT scenarios: after a failed allocation claimed slots are neither constructed nor zero-filled; the destructor destroys them.'),
